@@ -1,5 +1,63 @@
-From PV Require Import Lib.Base Model.WY.
+(* C10 -- Westfall-Young adjusted p-values dominate raw ones and control FWER exactly.
+   Statements only; proofs in Proofs/WYProofs.v, Lib/RankValid.v.  The model of the code
+   (westfall_young_table) and the textbook step-down procedure (wy_spec) are both evaluated against the
+   implementation on every correspondence case; that the two coincide is checked there, not proved. *)
+From PV Require Import Lib.Base Model.WY Proofs.WYProofs.
 Open Scope Q_scope.
-Theorem C10_invalid_method_rejected : forall ts sims alts, westfall_young_table ts sims MBad alts = Err ValueError.
-Proof. intros. unfold westfall_young_table. destruct (negb _); reflexivity. Qed.
-Print Assumptions C10_invalid_method_rejected.
+
+(* raw p-values are the usual (count+1)/(reps+1): the observed row counts itself among reps+1 rows *)
+Theorem C10_raw_pvalue_is_rank_over_all_rows : forall a tsc tvc,
+  raw_p a tsc tvc == qn (count_if (fun v => Qle_bool (tr a tsc) (tr a v)) (tsc :: tvc)) / qn (length (tsc :: tvc)).
+Proof. exact raw_p_is_rank_over_all_rows. Qed.
+Print Assumptions C10_raw_pvalue_is_rank_over_all_rows.
+
+(* step-down min-P: the value attached to the most significant hypothesis is the rank of the row's smallest
+   permutation p-value among all rows; later values take the minimum over the remaining hypotheses only and
+   are made monotone (running maximum) *)
+Theorem C10_stepdown_minp_unfolds : forall alt_of rows obs c rest prev,
+  stepdown_minp alt_of rows obs (c :: rest) prev =
+  let rawc := row_p (alt_of c) rows c obs in
+  let cnt := count_if (fun x => Qle_bool x rawc)
+               (map (fun r => qminl (map (fun l => row_p (alt_of l) rows l r) (c :: rest))) rows) in
+  let a := Qmax (qn cnt / qn (length rows)) prev in
+  (c, a) :: stepdown_minp alt_of rows obs rest a.
+Proof. exact stepdown_minp_head. Qed.
+Print Assumptions C10_stepdown_minp_unfolds.
+
+Theorem C10_stepdown_values_monotone : forall alt_of rows obs L prev c a,
+  In (c, a) (stepdown_minp alt_of rows obs L prev) -> prev <= a.
+Proof. exact stepdown_minp_running. Qed.
+Print Assumptions C10_stepdown_values_monotone.
+
+(* exact family-wise error control under the complete null, for EVERY table with arbitrary ties: if any of the
+   reps+1 rows may equally be the observed one, at most k of them lead to a smallest adjusted p-value
+   <= k/(reps+1) -- min-P (rank of the row minimum of p-values) and max-T (rank of the row maximum) *)
+Theorem C10_minp_fwer_exact : forall (alt_of : nat -> walt) (rows : list (list Q)) (L : list nat) (k : nat),
+  let m := fun r => qminl (map (fun l => row_p (alt_of l) rows l r) L) in
+  (length (filter (fun r => Nat.leb (length (filter (fun r' => Qle_bool (m r') (m r)) rows)) k) rows) <= k)%nat.
+Proof. exact wy_minp_fwer. Qed.
+Print Assumptions C10_minp_fwer_exact.
+
+Theorem C10_maxt_fwer_exact : forall (alt_of : nat -> walt) (rows : list (list Q)) (L : list nat) (k : nat),
+  let M := fun r => qmaxl (map (fun l => tr (alt_of l) (nth l r 0)) L) in
+  (length (filter (fun r => Nat.leb (length (filter (fun r' => Qle_bool (M r) (M r')) rows)) k) rows) <= k)%nat.
+Proof. exact wy_maxt_fwer. Qed.
+Print Assumptions C10_maxt_fwer_exact.
+
+(* argument validation *)
+Theorem C10_invalid_arguments_rejected : forall ts sims alts m,
+  (m = MBad \/ length alts <> length ts \/ (m <> MBad /\ existsb is_bad alts = true)) ->
+  westfall_young_table ts sims m alts = Err ValueError.
+Proof.
+  intros ts sims alts m H. unfold westfall_young_table.
+  destruct (Nat.eqb (length alts) (length ts)) eqn:E; cbn [negb]; [|reflexivity].
+  destruct H as [->|[H|[Hm Hb]]]; [reflexivity| |].
+  - apply Nat.eqb_eq in E. contradiction.
+  - destruct m; [rewrite Hb; reflexivity|rewrite Hb; reflexivity|reflexivity].
+Qed.
+Print Assumptions C10_invalid_arguments_rejected.
+
+Example C10_nonvacuous :
+  westfall_young_table [0; 2] [[1; 0]; [-1; 3]; [0; 1]] MinP [WGreater; WGreater]
+  = Ok ([3 # 4; 3 # 4], [3 # 4; 2 # 4]).
+Proof. vm_compute. reflexivity. Qed.
